@@ -3,8 +3,9 @@
 From Coq Require Import List ZArith QArith Bool.
 From PV Require Import lib.Sx lib.Str lib.Result model.GenSccw model.SccWrap model.SccWrite spec.SpecSccw.
 From PV Require Import proofs.SccWriteFacts proofs.SccWrapFacts proofs.SccWordsFacts proofs.SccDecodeFacts
-     proofs.SccLayoutFacts proofs.SccTimingFacts.
+     proofs.SccLayoutFacts proofs.SccTimingFacts model.SccRoundTrip proofs.SccRoundTripFacts.
 Import ListNotations.
+Open Scope Q_scope.
 
 (* ---- tables of the working tree (complete, re-proved on every run) ------------------------------- *)
 (* every basic code, every special/extended code, the substitute for unknown characters, the filler, the
@@ -106,6 +107,22 @@ Theorem C17_decode_rows : forall text, basic_text text = true -> (length (layout
   exists ws, text_to_words text = Ok ws /\ decode_body ws None [] = Some (layout_rows text).
 Proof. exact decode_rows_basic. Qed.
 Print Assumptions C17_decode_rows.
+
+(* ---- wave 2: the writer model composed, through the document, with the full SCC reader model (builder sccr's
+        model.SccDecoder.read). roundtrip_ok caps = the reader model returns one caption per cue, with the same words
+        (over-long words in pieces) and a start within 3 frames. Complete-table statements over the working tree's basic
+        character table, decided through BOTH models; arbitrary texts are checked by the extracted composition on every
+        generated case. ------------------------------------------------------------------------------------------ *)
+Theorem C17_roundtrip_every_basic_char :
+  forallb (fun c => roundtrip_ok (one_cap (lit "a" ++ [c] ++ lit "b")) && roundtrip_ok (one_cap ([c] ++ lit "ab c")))
+          (filter (fun c => negb (c =? 32)%Z) basic_cps) = true.
+Proof. exact roundtrip_every_basic_char. Qed.
+Print Assumptions C17_roundtrip_every_basic_char.
+Theorem C17_roundtrip_basic_pairs :
+  forallb (fun c1 => forallb (fun c2 => roundtrip_ok (one_cap ([c1; c2]))) neighbours)
+          (filter (fun c => negb (c =? 32)%Z) basic_cps) = true.
+Proof. exact roundtrip_basic_pairs. Qed.
+Print Assumptions C17_roundtrip_basic_pairs.
 
 (* ---- timing ------------------------------------------------------------------------------------------ *)
 (* PASS 2 is a one-caption look-ahead *)
